@@ -149,8 +149,11 @@ func c10R1(c *Ctx, r *Report) {
 	r.Check(len(bad2) == 0, rule, fnKey(fn)+" / decision table", "80 valuations of (len, first byte, second byte): one-byte form below 128, two-byte form only with continuation byte 1, else error", strings.Join(firstN(uniq(bad2), 4), "; "))
 }
 
-func c10R2(c *Ctx, r *Report) {
-	const rule = "C10-R2"
+func c10R2(c *Ctx, r *Report) { unpackWidthRule(c, r, "C10-R2") }
+
+// unpackWidthRule is shared with C16-R8: the container's number and length-prefix
+// getters inherit "oversized values are errors" from the width checks of UnpackN.
+func unpackWidthRule(c *Ctx, r *Report, rule string) {
 	r.SetFloor(rule, 7)
 	for _, t := range []struct {
 		fn  string
